@@ -626,7 +626,7 @@ impl<R: Reader> Dwarf<R> {
             }
         }
         let range = low_pc.and_then(|begin| {
-            let end = size.map(|size| begin + size).or(high_pc);
+            let end = size.and_then(|size| begin.checked_add(size)).or(high_pc);
             // TODO: perhaps return an error if `end` is `None`
             end.map(|end| Range { begin, end })
         });
